@@ -843,6 +843,10 @@ def generate_empi_dists_and_calc_estimate(
     else:
         estimation_results = []
         empi_dists_sequences = []
+        # an integer seed names one random stream for the whole run: the repetitions continue it
+        # instead of each restarting it (which made all repetitions identical)
+        if isinstance(seed_or_generator, (int, np.integer)):
+            seed_or_generator = np.random.Generator(np.random.MT19937(seed_or_generator))
         for _ in tqdm(range(iteration)):
             estimation_result, empi_dists_seq = _generate_empi_dists_and_calc_estimate(
                 qtomography,
